@@ -262,6 +262,8 @@ def execute(sc, tape=None):
                             "detail": "first byte %r context=%s segments=%r: wrapped=%s" % (
                                 first, sc["context"], cn["segments"], wrapped)}
                     break
+                if first == b"\x16" and sc["context"] and not cn["tls"]:
+                    continue   # a broken TLS handshake: there is no request line to classify
                 if not pcs:
                     viol = {"oracle": "protocol-selected", "signature": dict(sig, oracle="protocol-selected"),
                             "detail": "no getProtocol call for %r; handle_error=%r state=%s" % (raw[:60], hes[:1], st)}
